@@ -28,6 +28,7 @@ import (
 	"github.com/Tnze/go-mc/bot"
 	"github.com/Tnze/go-mc/chat"
 	"github.com/Tnze/go-mc/data/packetid"
+	"github.com/Tnze/go-mc/nbt"
 	mcnet "github.com/Tnze/go-mc/net"
 	pk "github.com/Tnze/go-mc/net/packet"
 	"github.com/Tnze/go-mc/net/queue"
@@ -760,6 +761,7 @@ type sessCfg struct {
 	tcp      bool
 	chk      string // none | ok | full | name
 	stock    bool
+	regMode  int // registries of the stock handler: 0 empty, 1 one entry each, 2 random
 	c2s, s2c []playPkt
 	regs     []regOp
 	fails    map[[2]int]bool
@@ -792,11 +794,13 @@ func runSession(o *hx.Out, cat string, cfg *sessCfg) {
 	}
 	gp := &gameplay{c2s: cfg.c2s, s2c: cfg.s2c}
 	var ch server.ConfigHandler = finishOnly{}
-	var blob []byte
+	var regToks []string
+	var regVerify func(*registry.Registries) string
+	var regWire [][]byte
 	if cfg.stock {
-		regs := registry.NewNetworkCodec()
+		var regs registry.Registries
+		regs, regToks, regWire, regVerify = genRegistries(o.R, cfg.regMode)
 		ch = &server.Configurations{Registries: regs}
-		blob = pk.Marshal(0, pk.NBT(regs)).Data
 	}
 	srv := &server.Server{
 		ListPingHandler: pingH{pl, server.NewPingInfo("verif", server.ProtocolVersion, chat.Text("motd"), nil)},
@@ -1041,8 +1045,8 @@ func runSession(o *hx.Out, cat string, cfg *sessCfg) {
 		}
 		return sb.String()
 	}
-	caseLine := fmt.Sprintf("join thr=%d name=%s claim=%s host=%s port=%d chk=%s cfg=%s blob=%s uuid=%s sched=%s pc=%s ps=%s",
-		cfg.thr, hx.Hex([]byte(cfg.name)), hx.Hex(claim[:]), hx.Hex([]byte(host)), port, chkTok, cfgTok, hx.Hex(blob), hx.Hex(off[:]), cfg.sched,
+	caseLine := fmt.Sprintf("join thr=%d name=%s claim=%s host=%s port=%d chk=%s cfg=%s regs=%s uuid=%s sched=%s pc=%s ps=%s",
+		cfg.thr, hx.Hex([]byte(cfg.name)), hx.Hex(claim[:]), hx.Hex([]byte(host)), port, chkTok, cfgTok, regsTok(regToks), hx.Hex(off[:]), cfg.sched,
 		playTok(cfg.c2s, joinErr == nil), playTok(cfg.s2c, joinErr == nil))
 	implLine := fmt.Sprintf("join %s %s bname=%s buuid=%s sname=%s suuid=%s sproto=%d c2s=%s s2c=%s pc=%s ps=%s",
 		botOut, srvOut, hx.Hex([]byte(client.Name)), hx.Hex(client.UUID[:]), hx.Hex([]byte(sname)), suuid, sproto,
@@ -1069,6 +1073,29 @@ func runSession(o *hx.Out, cat string, cfg *sessCfg) {
 			o.Fail("C19.refuse.reason", "the bot did not get the checker's reason: %v (thr=%d chk=%s)", joinErr, cfg.thr, cfg.chk)
 		} else if !sameMessage(chat.Message(de), chk.reason) {
 			o.Fail("C19.refuse.reason", "reason differs: got %q want %q (thr=%d)", chat.Message(de).String(), chk.reason.String(), cfg.thr)
+		}
+	}
+	if accept && joinErr == nil && gp.called && cfg.stock {
+		// the registry packets on the wire: one per registry, in struct order, each the identifier
+		// followed by the reference image (count, then key / true / NBT per entry)
+		var got [][]byte
+		for _, f := range s2cF[:cutS] {
+			if f.id == int32(packetid.ClientboundConfigRegistryData) {
+				got = append(got, f.data)
+			}
+		}
+		if len(got) != len(regWire) {
+			o.Fail("C19.join.registry-wire", "%d registry packets on the wire, %d registries (%s)", len(got), len(regWire), desc)
+		} else {
+			for i := range got {
+				if !bytes.Equal(got[i], regWire[i]) {
+					o.Fail("C19.join.registry-wire", "registry packet #%d differs from the reference image: %s want %s (%s)", i, clip(hx.Hex(got[i])), clip(hx.Hex(regWire[i])), desc)
+					break
+				}
+			}
+		}
+		if d := regVerify(&client.Registries); d != "" {
+			o.Fail("C19.join.registries", "after the join the bot's registries differ from the server's: %s (%s)", d, desc)
 		}
 	}
 	if accept && joinErr == nil && gp.called {
@@ -1119,6 +1146,204 @@ func runSession(o *hx.Out, cat string, cfg *sessCfg) {
 
 func sameMessage(a, b chat.Message) bool {
 	return a.Text == b.Text && a.Translate == b.Translate && reflect.DeepEqual(a.With, b.With) && reflect.DeepEqual(a.Extra, b.Extra) && a.Color == b.Color
+}
+
+// ---------------------------------------------------------------- registries of the stock handler
+
+func regsTok(t []string) string {
+	if len(t) == 0 {
+		return "-"
+	}
+	return strings.Join(t, ",")
+}
+
+func refVarIntBytes(v int) []byte {
+	u := uint32(int32(v))
+	var b []byte
+	for {
+		c := byte(u & 0x7f)
+		u >>= 7
+		if u != 0 {
+			b = append(b, c|0x80)
+		} else {
+			return append(b, c)
+		}
+	}
+}
+
+func refString(s string) []byte { return append(refVarIntBytes(len(s)), s...) }
+
+// network NBT of a value, by package nbt (not under test here)
+func refNBT(v any) []byte {
+	var buf bytes.Buffer
+	enc := nbt.NewEncoder(&buf)
+	enc.NetworkFormat(true)
+	if err := enc.Encode(v, ""); err != nil {
+		panic("harness: reference NBT: " + err.Error())
+	}
+	return buf.Bytes()
+}
+
+func rawOf(v any) (m nbt.RawMessage) {
+	b, err := nbt.Marshal(v)
+	if err != nil {
+		panic(err)
+	}
+	if err := nbt.Unmarshal(b, &m); err != nil {
+		panic(err)
+	}
+	return
+}
+
+// one registry: fills dst, returns the reference image of the registry (entry count, then per entry
+// key, true, NBT of the value - written from the protocol text) and a check of a received copy
+func fillReg[E any](dst *registry.Registry[E], keys []string, vals []E) ([]byte, string, func(*registry.Registry[E]) string) {
+	img := refVarIntBytes(len(keys))
+	var ents []string // <hex key>:<hex NBT of the value> per entry, for the model's reg_write
+	for i, k := range keys {
+		dst.Put(k, vals[i])
+		v := refNBT(&vals[i])
+		img = append(img, refString(k)...)
+		img = append(img, 1)
+		img = append(img, v...)
+		ents = append(ents, hx.Hex([]byte(k))+":"+hx.Hex(v))
+	}
+	etok := "-"
+	if len(ents) > 0 {
+		etok = strings.Join(ents, "+")
+	}
+	return img, etok, func(got *registry.Registry[E]) string {
+		for i, k := range keys {
+			id, v := got.Get(k)
+			if v == nil || int(id) != i || !reflect.DeepEqual(*v, vals[i]) {
+				return fmt.Sprintf("entry %d (%q): id %d value %+v", i, k, id, v)
+			}
+		}
+		if got.GetByID(int32(len(keys))) != nil {
+			return fmt.Sprintf("more than %d entries", len(keys))
+		}
+		return ""
+	}
+}
+
+func genKeys(r *hx.Rng, n int, prefix string) []string {
+	ks := make([]string, n)
+	for i := range ks {
+		ks[i] = fmt.Sprintf("minecraft:%s_%d", prefix, i)
+		if r.Intn(4) == 0 {
+			ks[i] = fmt.Sprintf("verif:%s/%x", prefix, r.Next()&0xffff) + strconv.Itoa(i)
+		}
+	}
+	return ks
+}
+
+func genRaw(r *hx.Rng) nbt.RawMessage {
+	switch r.Intn(4) {
+	case 0:
+		return rawOf(map[string]any{"asset_name": "amethyst", "x": int32(r.Intn(100))})
+	case 1:
+		return rawOf(map[string]any{"a": map[string]any{"b": []int32{1, 2, int32(r.Intn(9))}}, "s": strings.Repeat("y", r.Intn(300))})
+	case 2:
+		return rawOf(map[string]any{})
+	default:
+		return rawOf(map[string]any{"f": float32(0.5), "l": int64(r.Next()), "list": []string{"p", "q"}})
+	}
+}
+
+// the registries a stock server sends, the `regs=` tokens of the case line (struct order) and the check
+// of the bot's copy
+func genRegistries(r *hx.Rng, mode int) (registry.Registries, []string, [][]byte, func(*registry.Registries) string) {
+	regs := registry.NewNetworkCodec()
+	n := func() int {
+		switch mode {
+		case 0:
+			return 0
+		case 1:
+			return 1
+		}
+		return r.Pick(0, 1, 2, 3, 7, 40)
+	}
+	var toks []string
+	var checks []func(*registry.Registries) string
+	var wire [][]byte // what each RegistryData packet must carry: Identifier(id) ++ registry image
+	add := func(id string, img []byte, etok string) {
+		toks = append(toks, hx.Hex([]byte(id))+"/"+etok)
+		wire = append(wire, append(refString(id), img...))
+	}
+
+	k := n()
+	cts := make([]registry.ChatType, k)
+	for i := range cts {
+		cts[i] = registry.ChatType{
+			Chat:      chat.Decoration{TranslationKey: "chat.type.text", Parameters: []string{"sender", "content"}},
+			Narration: chat.Decoration{TranslationKey: fmt.Sprintf("chat.type.%d", r.Intn(50)), Parameters: []string{"sender"}},
+		}
+		cts[i].Chat.Style.Italic = r.Intn(2) == 0
+		cts[i].Chat.Style.Color = []string{"", "gray", "red"}[r.Intn(3)]
+	}
+	img, et, c1 := fillReg(&regs.ChatType, genKeys(r, k, "chat"), cts)
+	add("minecraft:chat_type", img, et)
+	checks = append(checks, func(d *registry.Registries) string { return c1(&d.ChatType) })
+
+	k = n()
+	dts := make([]registry.DamageType, k)
+	for i := range dts {
+		dts[i] = registry.DamageType{MessageID: fmt.Sprintf("dmg%d", i), Scaling: "never", Exhaustion: float32(r.Intn(10)) / 4}
+		if r.Intn(2) == 0 {
+			dts[i].Effects, dts[i].DeathMessageType = "burning", "fall_variants"
+		}
+	}
+	img, et, c2 := fillReg(&regs.DamageType, genKeys(r, k, "damage"), dts)
+	add("minecraft:damage_type", img, et)
+	checks = append(checks, func(d *registry.Registries) string { return c2(&d.DamageType) })
+
+	k = n()
+	dims := make([]registry.Dimension, k)
+	for i := range dims {
+		dims[i] = registry.Dimension{HasSkylight: r.Intn(2) == 0, Natural: true, CoordinateScale: float64(1 + r.Intn(8)), MinY: -64, Height: int32(16 * (1 + r.Intn(24))),
+			LogicalHeight: 256, InfiniteBurn: "#minecraft:infiniburn_overworld", Effects: "minecraft:overworld", AmbientLight: 0.25,
+			MonsterSpawnLightLevel: rawOf(int32(r.Intn(16))), MonsterSpawnBlockLightLimit: int32(r.Intn(16))}
+		if r.Intn(2) == 0 {
+			dims[i].FixedTime = int64(6000 + r.Intn(100))
+			dims[i].MonsterSpawnLightLevel = rawOf(map[string]any{"type": "minecraft:uniform", "value": map[string]any{"min_inclusive": int32(0), "max_inclusive": int32(7)}})
+		}
+	}
+	img, et, c3 := fillReg(&regs.DimensionType, genKeys(r, k, "dim"), dims)
+	add("minecraft:dimension_type", img, et)
+	checks = append(checks, func(d *registry.Registries) string { return c3(&d.DimensionType) })
+
+	raws := []struct {
+		id  string
+		reg func(*registry.Registries) *registry.Registry[nbt.RawMessage]
+	}{
+		{"minecraft:trim_material", func(d *registry.Registries) *registry.Registry[nbt.RawMessage] { return &d.TrimMaterial }},
+		{"minecraft:trim_pattern", func(d *registry.Registries) *registry.Registry[nbt.RawMessage] { return &d.TrimPattern }},
+		{"minecraft:worldgen/biome", func(d *registry.Registries) *registry.Registry[nbt.RawMessage] { return &d.WorldGenBiome }},
+		{"minecraft:wolf_variant", func(d *registry.Registries) *registry.Registry[nbt.RawMessage] { return &d.Wolfvariant }},
+		{"minecraft:painting_variant", func(d *registry.Registries) *registry.Registry[nbt.RawMessage] { return &d.PaintingVariant }},
+		{"minecraft:banner_pattern", func(d *registry.Registries) *registry.Registry[nbt.RawMessage] { return &d.BannerPattern }},
+		{"minecraft:enchantment", func(d *registry.Registries) *registry.Registry[nbt.RawMessage] { return &d.Enchantment }},
+		{"minecraft:jukebox_song", func(d *registry.Registries) *registry.Registry[nbt.RawMessage] { return &d.JukeboxSong }},
+	}
+	for _, rw := range raws {
+		rw := rw
+		k = n()
+		vs := make([]nbt.RawMessage, k)
+		for i := range vs {
+			vs[i] = genRaw(r)
+		}
+		img, et, c := fillReg(rw.reg(&regs), genKeys(r, k, "raw"), vs)
+		add(rw.id, img, et)
+		checks = append(checks, func(d *registry.Registries) string { return c(rw.reg(d)) })
+	}
+	return regs, toks, wire, func(d *registry.Registries) string {
+		for i, c := range checks {
+			if m := c(d); m != "" {
+				return fmt.Sprintf("registry #%d: %s", i, m)
+			}
+		}
+		return ""
+	}
 }
 
 // ---------------------------------------------------------------- status ping
@@ -1448,6 +1673,11 @@ func main() {
 			cfg.chk = "name"
 		}
 		cat := "join." + map[bool]string{true: "tcp", false: "pipe"}[cfg.tcp] + "." + cfg.chk
+		if i%3 == 2 || i%10 == 0 {
+			// the library's own configuration handler instead of the finish-only one
+			cfg.stock, cfg.regMode = true, r.Pick(0, 1, 2, 2)
+			cat += ".stock"
+		}
 		if cfg.chk == "none" || cfg.chk == "ok" {
 			nC, nS := r.Intn(60), r.Intn(60)
 			if i >= len(thrs) && i < 2*len(thrs) {
@@ -1479,8 +1709,8 @@ func main() {
 	}
 	lap("sessions")
 	// the stock configuration handler
-	for _, thr := range []int{-1, 256} {
-		runSession(o, "join.stock-configuration", &sessCfg{thr: thr, name: "Steve", addr: "example.org:25565", chk: "none", stock: true, sched: genSched(r),
+	for k, thr := range []int{-1, 256, 0} {
+		runSession(o, "join.stock-configuration", &sessCfg{thr: thr, name: "Steve", addr: "example.org:25565", chk: "none", stock: true, regMode: k, sched: genSched(r),
 			regs: []regOp{{generic: true, hs: []hspec{{0, markerPrio, 0}}}}})
 	}
 
